@@ -432,12 +432,14 @@ def c_outcome(o):
 
 
 def make_instance(cls, cd):
-    try:
-        return cls(**({eff_key(cd): "k"} if eff_key(cd) else {}))
-    except BaseException as e:
-        if isinstance(e, (KeyboardInterrupt, SystemExit)):
-            raise
-        return object.__new__(cls)
+    k = eff_key(cd)
+    for kw in ([{k: "k"}, {k: 7}] if k else [{}]):  # the key may be declared str or int
+        try:
+            return cls(**kw)
+        except BaseException as e:
+            if isinstance(e, (KeyboardInterrupt, SystemExit)):
+                raise
+    return object.__new__(cls)
 
 
 # ------------------------------------------------------------------ effects of accepted calls on the real methods
@@ -569,7 +571,8 @@ def effects_for(env, by_name, cd, cls, mname, pat, kind, adv):
                     call_kw = dict(kw)
                     if path:
                         tcls = env[target_cd["name"]]
-                        recv = getattr(recv, "with_" + aname)(tcls(**({tkey: "k0"} if tkey else {})))
+                        k0 = typed_value(target_cd, tkey, 7) if tkey else None  # the key may be declared int
+                        recv = getattr(recv, "with_" + aname)(tcls(**({tkey: "k0" if k0 is None else k0} if tkey else {})))
                         if path == 2 and not cd.get("frozen"):
                             call_kw["_inplace"] = True
                     if is_transform:
